@@ -44,8 +44,15 @@ Proof. split; vm_compute; reflexivity. Qed.
 (* the compositions that used to change on reload are inside the guard now: arithmetic priors under any
    variable names, list-built collections, LogGaussian priors, the Drawer search *)
 Example reload_ok_repaired :
-  reload_ok arith_model = true /\ reload_ok list_coll = true /\ reload_ok log_gaussian_model = true /\ reload_ok drawer = true.
+  reload_ok arith_model = true /\ reload_ok list_coll = true /\ reload_ok log_gaussian_model = true /\ reload_ok drawer = true /\
+  reload_ok negated_model = true /\ reload_ok negated_sum_model = true.
 Proof. repeat split; vm_compute; reflexivity. Qed.
+
+(* history: the guard used to exclude every ModifiedPrior (reload was None before 8d274ac) *)
+Example modified_prior_reloads_now :
+  reload negated_model = Some negated_model /\ exists t', reload negated_sum_model = Some t' /\
+  tokens ps0 (reify t') = tokens ps0 (reify negated_sum_model).
+Proof. split; [vm_compute; reflexivity|]. eexists. split; vm_compute; reflexivity. Qed.
 
 Example reload_arith_same_tokens :
   exists t', reload arith_model = Some t' /\ t' <> arith_model /\ tokens ps0 (reify t') = tokens ps0 (reify arith_model).
@@ -54,7 +61,8 @@ Proof. eexists. split; [vm_compute; reflexivity|]. split; [discriminate | vm_com
 (* the facts read from the source, as they are now (the proofs of Proofs2/3/5 depend on them) *)
 Example code_facts :
   compound_idf = Some ["left"; "right"] /\ modified_idf = Some ["prior"] /\
-  reload_restores_item_number = true /\ log_gaussian_dict = true /\ drawer_json_readable = true /\ sets_sorted = true.
+  reload_restores_item_number = true /\ log_gaussian_dict = true /\ drawer_json_readable = true /\ sets_sorted = true /\
+  modified_prior_storable = true /\ instance_only_when_exact = true.
 Proof. repeat split. Qed.
 
 (* contexts exist: the `b` attribute of the model stored under "source" *)
